@@ -10,7 +10,7 @@ RULE = ("correspondence: number_of_edits() / sequence_edits_as_features() of rea
         "assignment (mismatch runs touching both ends, single positions, everything), text_summary_message() of real "
         "ProblemConstraintsEvaluations (real and synthetic pass flags, failed_only filter), scores_sum() to 1e-12 (CPython 3.12 sum() is compensated) "
         "against the model's IEEE left fold; oracle: random histories of 1-5 operations (resolve_constraints, optimize, "
-        "manual assignment, direct random/exhaustive searches) on random problems; after every operation the reports "
+        "manual assignment, direct random/exhaustive searches) on random linear and circular problems; after every operation the reports "
         "are compared with an independent position-by-position count against the sequence the problem was created with; "
         "non-trivial = a history with at least two sequence-changing operations")
 TRUSTED = ["harness/props/C17.py independent recomputation of the reports", "text parsing of the summaries"]
@@ -118,6 +118,7 @@ def _alarm(*a):
 
 def check_reports(p, original, out, inp, where):
     """independent recomputation of every report from (original, p.sequence)"""
+    circular = type(p).__name__.startswith("Circular")
     from dnachisel.biotools import score_to_formatted_string
     cur = p.sequence
     n = len(cur)
@@ -150,19 +151,29 @@ def check_reports(p, original, out, inp, where):
                 bad.append(("summary-success", "header %r with %d failing / %d passing evaluations listed" % (head, listed_fail, listed_pass)))
             # the listing itself is truthful
             want = []
-            for c in p.constraints:
+            listed = p._circularized_view(with_constraints=True).constraints if circular else p.constraints
+            view = p._circularized_view(with_constraints=True) if circular else p
+            for c in listed:
                 if autopass and c.enforced_by_nucleotide_restrictions:
                     want.append(True)
                 else:
-                    want.append(bool(c.evaluate(p).passes))
+                    want.append(bool(c.evaluate(view).passes))
             wf = sum(1 for w in want if not w)
             wp = 0 if failed_only else sum(1 for w in want if w)
             if (listed_fail, listed_pass) != (wf, wp):
                 bad.append(("summary-listing", "listed %d fail / %d pass, evaluations give %d / %d" % (listed_fail, listed_pass, wf, wp)))
     if p.objectives:
+        # the individual objective scores are those the problem lists (for a circular problem: on the three-copy view)
         tot = 0
-        for o in p.objectives:
-            tot = tot + o.boost * o.evaluate(p).score
+        for ev in p.objectives_evaluations().evaluations:
+            tot = tot + ev.specification.boost * ev.score
+        if not circular:
+            # ... which for a linear problem are the objectives' own evaluations
+            tot2 = 0
+            for o in p.objectives:
+                tot2 = tot2 + o.boost * o.evaluate(p).score
+            if abs(float(tot2) - float(tot)) > 1e-9 * max(1.0, abs(float(tot))):
+                bad.append(("objectives-listed-scores", "listed evaluations sum to %r, objectives evaluate to %r" % (float(tot), float(tot2))))
         rep = p.objective_scores_sum()
         if abs(float(rep) - float(tot)) > 1e-9 * max(1.0, abs(float(tot))):
             bad.append(("objectives-total", "reported %r, boost-weighted sum %r" % (float(rep), float(tot))))
@@ -192,7 +203,8 @@ def run_history(desc, ops, out):
     try:
         cons = [problems.build_spec(d) for d in desc["constraints"]]
         objs = [problems.build_spec(d) for d in desc.get("objectives", [])]
-        p = dc.DnaOptimizationProblem(desc["sequence"], constraints=cons, objectives=objs, logger=None)
+        cls = dc.CircularDnaOptimizationProblem if desc.get("circular") else dc.DnaOptimizationProblem
+        p = cls(desc["sequence"], constraints=cons, objectives=objs, logger=None)
     except Exception:
         return 0, 0
     problems.apply_settings(p, desc.get("settings", {}))
@@ -231,9 +243,14 @@ def rand_history(rng):
     desc = problems.rand_solver_problem(rng, nmin=6, nmax=36)
     desc["objectives"] = [o for o in desc["objectives"] if not o["kind"].startswith("user")]
     desc["constraints"] = [c for c in desc["constraints"] if not c["kind"].startswith("user")]
+    if rng.random() < 0.3:
+        # circular problems list their evaluations on the three-copy view; the direct random searches are linear-only
+        desc["circular"] = True
+        desc["constraints"] = [c for c in desc["constraints"] if c["kind"] in ("pattern", "gcwin", "keep", "keep_idx", "keep_edits")]
+        desc["objectives"] = [o for o in desc["objectives"] if o["kind"] in ("gc_obj", "pattern_obj", "keep_obj", "change_obj")]
     ops = []
     for _ in range(rng.randint(1, 5)):
-        k = rng.choice(OPS)
+        k = rng.choice(OPS if not desc.get("circular") else ["resolve", "optimize", "assign", "assign_original"])
         if k == "assign":
             ops.append(["assign", rand_edit(rng, desc["sequence"])])
         else:
